@@ -12,10 +12,11 @@ for d in sorted(glob.glob('/verif/seeded/*/meta.json')):
 n = len(rows)
 txt = '''## 12. Seeded changes
 
-%d changes were produced by fresh sub-agents in four rounds (the third, in two batches, asked explicitly for
+%d changes were produced by fresh sub-agents in five rounds (the third, in two batches, asked explicitly for
 less obvious mechanisms: unusual type parameters, rarely used entry points, error paths,
 feature interactions; the fourth for secondary clauses of the statements, silent effects,
-shared helpers and almost-equivalent clean-ups), each agent given only the text of one property and its own scratch git
+shared helpers and almost-equivalent clean-ups; the fifth the same, confined to the files
+the earlier rounds had hardly touched), each agent given only the text of one property and its own scratch git
 worktree under `/tmp` (nothing from `/verif`), and asked for a change that still compiles and
 passes the whole existing test suite but breaks the property, with a demonstration. Each was
 kept only after `tools/confirm_mutant.sh` confirmed, in the scratch worktree: the patch
@@ -31,9 +32,9 @@ re-confirmed; all 119 Rust demos pass on the final unchanged tree. `seeded/MATRI
 result of re-running every change against its check(s) on the final tree
 (`tools/seeded_matrix.py`).
 
-**Result: every change is caught by at least one check, and all but one by the check of the
+**Result: every change is caught by at least one check, and all but two by the check of the
 property it was aimed at** (`C01-d`, a write-failure change, is outside C01's quantifier and is
-caught by C09). %d changes (%s) were first *missed* by the targeted check and led to
+caught by C09; `C03-g` accepts an invalid input, which is C19's clause, and is caught by C19). %d changes (%s) were first *missed* by the targeted check and led to
 strengthening its **workload** (never by loosening or special-casing an oracle): encoders
 reused after `clear()` (C06, C12), peeks while encoding (C02, C12), raw-binary peeks (C12),
 raw-binary and imported starts (C01, C06), i8/u8 quantised models and lookup models at
@@ -51,7 +52,13 @@ iterators (C01, C14), write faults inside batch encodes (C09), lazy models beyon
 mantissa with words placed at symbol boundaries and range decoders from validated raw parts
 (C10), encoders started on pre-filled sinks and inspected before the first symbol (C08, C11,
 C18), peeks inside format messages (C06), export views between size queries (C18), one more
-parameter mode of the Python models (C19). "missed" entries for *other* properties' checks are listed for completeness; they are
+parameter mode of the Python models (C19); from round 5 (mostly extended on the agents'
+reports before trying): iterator methods that discard (`count`, `last`, `fold`) on the
+decoding iterators of both coders (C01, C02), in-support values with arbitrary higher bits and
+generic conversions of uniform models (C09), an exactly-fitting forward cursor (C04), uniform
+models with 64-bit probabilities (C10), 90-bit Huffman code words in bit-coder histories (C16),
+queue-decoder exhaustion and diagnostics through `&M` (C18), lookup models converted from the
+non-contiguous decoder (C05). "missed" entries for *other* properties' checks are listed for completeness; they are
 outside those properties' statements.
 
 | id | change | needs to manifest | checks run (quick) |
